@@ -79,6 +79,9 @@ def to_py(v):
         return float(v["f"])
     if t == "big":
         return int(v["d"])
+    if t == "dec":
+        from decimal import Decimal
+        return float(Decimal(int(v["dm"])).scaleb(-int(v["de"])))
     if t == "opaque":
         from .drops import PlainObj
         return PlainObj(v["s"])
